@@ -45,7 +45,7 @@ func genScen(r *hutil.Rng, id int, malformed bool) Scen {
 			sc.ResMode[k] = 2
 		}
 		sc.ConnPat[k] = pattern(r, []int{1}, burst)
-		sc.DelPat[k] = pattern(r, []int{1, 1, 2}, false)
+		sc.DelPat[k] = pattern(r, []int{1, 2, 3, 3, 4, 5, 6}, false)
 	}
 	nb := 1 + r.Intn(4)
 	branches := make([]int64, nb)
